@@ -126,7 +126,7 @@ def h_entry() -> bool:
         size_ok = from_be(raw) == need
     want = L <= 1024 and fits and bool(size_ok)
     conds = [bool(ok) == want]
-    if want:
+    if want and bool(ok):
         conds += [s.index == need, e.length == L, len(e.data) == L, bytes_eq(e.data, [data[16 + i] for i in range(L)])]
     return verdict(sym_all(conds), obs={"ok": bool(ok), "want": want, "L": L, "avail": avail})
 
